@@ -79,6 +79,28 @@ def _rec(at, remaining, host="H"):
     return Obj(f"{CM}._InFlightRecord", {"host": host, "message": (b"syn", b"raw"), "clazz": "X", "at": at, "remaining": remaining})
 
 
+def r2b_index_never_reused(ctx):
+    """C06.R2 (index arithmetic): the sender's index grows by exactly one per message at every magnitude — 2**8, 2**16, 2**31, 2**32,
+    2**63 boundaries included: the listener remembers every acknowledged (index, sender) for ever, so an index that wraps around is
+    acknowledged and dropped as a duplicate although it is a new message."""
+    repo = ctx.repo
+    fi = repo.func(f"{CM}.ReliableSender.send")
+    from .common import host_entry as he
+    bad = None
+    for idx in (0, 254, 255, 65534, 65535, 2 ** 31 - 1, 2 ** 32 - 1, 2 ** 63 - 1):
+        env = {"self.idx": idx, "self.address": "me", "self.inflight": {}, "self.hosts": {"H": he(repo, Sym("sockH"), "addrH")}}
+        for p in Interp(repo, call_models={"time.time_ns": lambda *a: NOW}).explore(fi, env=env, args={"host": "H", "m": Atom("M")}):
+            ctx.evals(1)
+            if p.exit[0] == "return" and (p.heap.get("self.idx") != idx + 1 or list(p.heap.get("self.inflight", {}).keys()) != [idx]):
+                bad = (idx, p.heap.get("self.idx"), list(p.heap.get("self.inflight", {}).keys()))
+    if bad:
+        ctx.violation("C06.R2", fi.qual, loc(fi), "index grows by one at every magnitude",
+                      f"send with index {bad[0]}: recorded under {bad[2]}, next index {vkey(bad[1])} (expected {bad[0] + 1}) — a wrapped index collides with one the "
+                      f"receiver has already acknowledged; the new message is acknowledged, dropped, and never delivered")
+    else:
+        ctx.ok("C06.R2", loc(fi), "sender index: +1 per message at every magnitude (no wrap-around)")
+
+
 def r3_retry_and_ack(ctx):
     repo = ctx.repo
     fi = repo.func(f"{CM}.ReliableSender.maybe_retry")
@@ -214,7 +236,9 @@ def r4_r5_listener(ctx):
     msgs = {b"S": _syn(5, A), b"S2": _syn(6, A), b"H": hdr, b"O": other, b"X": Obj(MSG + "Ack", {"idx": 1}, frozen=True)}
     grammar = [([], "raise"), ([b"O"], "msg"), ([b"O", b"X"], "raise"), ([b"H", b"V"], "payload1"), ([b"H"], "raise"), ([b"H", b"V", b"X"], "raise"),
                ([b"S"], "raise"), ([b"S", b"O"], "msg"), ([b"S", b"O", b"X"], "raise"), ([b"S", b"H", b"V"], "payload2"), ([b"S", b"H"], "raise"),
-               ([b"S", b"H", b"V", b"X"], "raise"), ([b"S", b"S2"], "raise")]
+               ([b"S", b"H", b"V", b"X"], "raise"), ([b"S", b"S2"], "raise"),
+               # a dataset whose serialised form is empty is a legitimate payload: an empty frame is a value, not a delimiter
+               ([b"H", b""], "payload1"), ([b"S", b"H", b""], "payload2")]
     table = []
     for frames, want in grammar:
         ip = Interp(repo, call_models=_listener_models(frames, msgs))
@@ -229,7 +253,7 @@ def r4_r5_listener(ctx):
             got = "raise"
         elif isinstance(rv, Obj) and rv.cls == MSG + "DatasetTransmitPayload":
             k = 1 if frames[0] == b"H" else 2
-            got = f"payload{k}" if rv.fields.get("header") == hdr and rv.fields.get("value") == b"V" else f"bad-payload {vkey(rv.fields)[:80]}"
+            got = f"payload{k}" if rv.fields.get("header") == hdr and rv.fields.get("value") == frames[-1] else f"bad-payload {vkey(rv.fields)[:80]}"
         elif rv == other:
             got = "msg"
         else:
@@ -359,4 +383,4 @@ def r1_receive_loops(ctx):
             ctx.undecided("C06.R1", "-", f"new owner of a ReliableSender: {o} (its receive loop is not covered)")
 
 
-RULES = [r1_receive_loops, r2_send, r3_retry_and_ack, r7b_acked_container_never_forgets, r4_r5_listener, r6_frames]
+RULES = [r1_receive_loops, r2_send, r2b_index_never_reused, r3_retry_and_ack, r7b_acked_container_never_forgets, r4_r5_listener, r6_frames]
